@@ -314,6 +314,14 @@ pub struct RegRaceCase {
 	/// false: the job is deleted (delete_now) at that moment and the waiters hold an outstanding to_wait ticket
 	pub completes: bool,
 	pub rounds: u8,
+	/// the ticket is polled once (still pending) by a task that then goes away, and only then cloned for /
+	/// moved to the waiters: a registration made by an earlier poll must not count for a later waiter
+	#[serde(default)]
+	pub prepoll: bool,
+	/// the control completes / the job ends this many µs after the waiters were released (0 = together with
+	/// them: registration races with the raise; 3000 = when they are all parked)
+	#[serde(default)]
+	pub end_delay_us: u16,
 }
 
 mod slowwaker {
@@ -377,13 +385,27 @@ pub fn run_regrace(c: &RegRaceCase) -> Outcome {
 		let resolved_unwoken = Arc::new(AtomicUsize::new(0));
 		let (job, task) = rt.block_on(async { start_job(Arc::new(Command { program: Program::Exec { prog: "/bin/true".into(), args: Vec::new() }, options: SpawnOptions::default() })) });
 		let (gate_s, gate_r) = tokio::sync::oneshot::channel::<()>();
+		let entered = Arc::new(std::sync::atomic::AtomicBool::new(false));
+		let entered2 = entered.clone();
 		job.run_async(move |_| {
+			entered2.store(true, Ordering::SeqCst);
 			Box::new(async move {
 				let _ = gate_r.await;
 			})
 		});
+		// the task must be inside the gate before anything else is sent (a high-priority control would overtake it)
+		let t_enter = std::time::Instant::now();
+		while !entered.load(Ordering::SeqCst) && t_enter.elapsed() < Duration::from_secs(5) {
+			std::thread::sleep(Duration::from_micros(50));
+		}
 		// the observed ticket: a closure behind the gate, or a wait-for-end that only the job's end resolves
 		let ticket = if c.completes { job.run(|_| {}) } else { job.to_wait() };
+		let mut ticket = ticket;
+		if c.prepoll {
+			let (_, w0) = slowwaker::new(0);
+			let mut cx0 = Context::from_waker(&w0);
+			let _ = std::pin::Pin::new(&mut ticket).poll(&mut cx0);
+		}
 		let barrier = Arc::new(Barrier::new(n + 1));
 		let mut th = Vec::new();
 		for (off_us, clone_us) in c.waiters.clone() {
@@ -422,6 +444,9 @@ pub fn run_regrace(c: &RegRaceCase) -> Outcome {
 			}));
 		}
 		barrier.wait();
+		if c.end_delay_us > 0 {
+			std::thread::sleep(Duration::from_micros(u64::from(c.end_delay_us)));
+		}
 		if c.completes {
 			let _ = gate_s.send(());
 		} else {
@@ -628,7 +653,7 @@ pub fn check(e: &Engine) {
 			threads: 4,
 			confirm: 1,
 			max_shrink_iters: 6,
-			rule: "4-24 OS threads each poll a clone of one ticket for the first time within 0-300 µs of the moment the control completes (a closure behind a gate that is released then) or the job ends (delete_now with a to_wait ticket outstanding); each thread's waker takes 0-400 µs to clone, which stretches the ticket's registration; 10-30 rounds per case: a waiter that was not woken for 1.5 s although the ticket is resolved is a lost wake-up; non-trivial = 2 or more waiters",
+			rule: "4-24 OS threads each poll a clone of one ticket for the first time within 0-300 µs of the moment (or, in a third of the cases, 3 ms before) the control completes (a closure behind a gate that is released then) or the job ends (delete_now with a to_wait ticket outstanding); each thread's waker takes 0-400 µs to clone, which stretches the ticket's registration; in 40% of the cases the ticket has been polled once (pending) by a task that went away before it is cloned for the waiters; 10-30 rounds per case: a waiter that was not woken for 1.5 s although the ticket is resolved is a lost wake-up; non-trivial = 2 or more waiters",
 			confirm_any: &[],
 		},
 		&|| {
@@ -636,8 +661,10 @@ pub fn check(e: &Engine) {
 				proptest::collection::vec((prop_oneof![3 => Just(0u16), 1 => 0u16..300], prop_oneof![2 => Just(0u16), 2 => Just(50), 1 => 100u16..400]), 4..25),
 				any::<bool>(),
 				10u8..30,
+				proptest::bool::weighted(0.4),
+				prop_oneof![2 => Just(0u16), 1 => Just(3000u16)],
 			)
-				.prop_map(|(waiters, completes, rounds)| RegRaceCase { waiters, completes, rounds })
+				.prop_map(|(waiters, completes, rounds, prepoll, end_delay_us)| RegRaceCase { waiters, completes, rounds, prepoll, end_delay_us })
 				.boxed()
 		},
 		&run_regrace,
